@@ -382,6 +382,7 @@ class RetryExecutor(CanCustomizeBind, Executor):
                     if not job.delegate_future:
                         self._log.debug("Successful cancel - no delegate: %s", job)
                         self._jobs.pop(idx)
+                        metrics.RETRY_QUEUE.labels(executor=self._name).dec()
                         return True
 
                     found_job = job
@@ -433,9 +434,12 @@ class RetryExecutor(CanCustomizeBind, Executor):
         assert found_job, "BUG: no job associated with delegate %s" % delegate_future
 
         if delegate_future.cancelled():
-            # retrying on cancel is not allowed
+            # retrying on cancel is not allowed; we're finished with this job
             self._log.debug("Delegate was cancelled: %s", delegate_future)
+            # (mark the future cancelled before dropping the job, so that a
+            # concurrent cancel() never finds a pending future without a job)
             found_job.future._me_delegate_cancelled()
+            self._pop_job(found_job)
             return
 
         (should_retry, sleep_time) = eval_policy(found_job, self._log)
